@@ -54,7 +54,7 @@ def run(ctx):
     r = ctx.tlc("Realloc", cfg, workers=4, must_hold=False, coverage=False)
     ctx.extra["swapped_variant_violates_FinalGetsLarger"] = r.violated is not None
     rng = np.random.default_rng(ctx.seed)
-    corpus = inputs.diploid(ctx.seed, k=3 if q else 10)
+    corpus = inputs.diploid(ctx.seed, k=2 if q else 8) + inputs.tiny_diploid(ctx.seed, k=4 if q else 12)
     events = []
     settings = [{"max_iterations": 3}, {"max_iterations": 2, "match_segregating_sites": True, "rescaling_intervals": 5}]
     if not q:
@@ -74,6 +74,9 @@ def run(ctx):
                 ev["tid"] = f"{inp.name}/rephase{rep}/{sorted(kw.items())}"
                 events.append(ev)
                 if ev["n_switched"] > 0:
+                    ctx.nontriv(ev["tid"])
+                elif ev["sing"]:
+                    ctx.count("calls_without_switched_singleton")
                     ctx.nontriv(ev["tid"])
                 ctx.sample({"tid": ev["tid"], "blocks": len(ev["blocks"]), "singletons": len(ev["sing"]),
                             "switched": ev["n_switched"]}, limit=6)
